@@ -26,7 +26,7 @@ var (
 	BAD_HANDSHAKE_METHOD         = &types.CodeMessage{Code: 2, Message: `Bad handshake method`}
 	BAD_REQUEST                  = &types.CodeMessage{Code: 3, Message: `Bad request`}
 	FORBIDDEN                    = &types.CodeMessage{Code: 4, Message: `Forbidden`}
-	UNSUPPORTED_PROTOCOL_VERSION = &types.CodeMessage{Code: 4, Message: `Unsupported protocol version`}
+	UNSUPPORTED_PROTOCOL_VERSION = &types.CodeMessage{Code: 5, Message: `Unsupported protocol version`}
 )
 
 type baseServer struct {
